@@ -311,3 +311,31 @@ def t5(ctx):
                 vals.add(e["new"][1])
     okv = len(vals) == 1 and all(len(v) > 2 and v[2] == 0 for v in vals)
     yield Ob(key_of("C07-T5", "sync", "marker-is-zero"), okv, "REMOVED_SEGMENT_NODE = 0 in every mark CAS (so data_size >= 1 keeps real sizes apart from the marker)", None)
+
+
+@rule("C07-T6", "C07", 3, "a pop unlinks its victim from a word that is known to be in the list: the sentinel, or a predecessor whose membership is protected (version bits "
+      "in the words, a reclamation scheme, or a re-read of the link that led to the predecessor after the mark). A predecessor reached through a link read earlier can "
+      "have been popped and be on its way back in (own word stored, valid looking, not yet linked): the unlink CAS on its word succeeds, the victim is handed out "
+      "while its real predecessor still links it, and every later traversal waits on that removed node for ever")
+def t6(ctx):
+    sn = ctx.facts.adts.get("sync::SegmentNode")
+    one_word = sn is not None and re.search(r"Atomic<u64>$", sn["variants"][0]["fields"][0]["ty"]) is not None
+    smr = any(re.search(r"crossbeam_epoch|epoch::pin|hazard|haphazard|seize::", (t.get("resolved") or t.get("callee") or "")) for b in ctx.facts.own for _, t in b.calls())
+    for name in MARKING:
+        b, ev, res = sync_eval(ctx, name)
+        marks = [e for e in cas_entries(res) if classify_cas(res, e) == "mark"]
+        unl = [e for e in cas_entries(res) if classify_cas(res, e) == "unlink"]
+        if len(marks) != 1 or len(unl) != 1:
+            yield Ob(key_of("C07-T6", b.path, "anchors"), False, "expected one mark and one unlink CAS", b.loc())
+            continue
+        m, u = marks[0], unl[0]
+        from_sentinel = re.search(r"\.sentinel\]?$", show(u["target"])) is not None and "find_prev" not in show(u["target"])
+        tagged = not (tag(m["new"]) == "pack" and tag(u["new"]) == "pack" and one_word)
+        # a re-read, after the mark, of some word other than the victim's and the predecessor's own (the link that led to the predecessor)
+        reval = [e for e in res.log if e["kind"] == "call" and e.get("atomic") == "load" and not e["chain"] and m["seq"] < e["seq"] < u["seq"]
+                 and e.get("target") not in (u["target"], m["target"])]
+        ok = from_sentinel or tagged or smr or bool(reval)
+        yield Ob(key_of("C07-T6", b.path, "unlink-from-a-word-known-to-be-linked"), ok,
+                 "%s: the victim is unlinked from %s" % (name, "the sentinel" if from_sentinel else
+                                                         "the predecessor returned by the traversal (%s): no version bits, no reclamation scheme, the link to the predecessor is not read again after the mark" % short(u["target"], 70)),
+                 ctx.loc(u))
